@@ -1,10 +1,13 @@
 //! `persist` workload (C09): the durability pattern. The same data takes two routes to every
 //! subcommand:
 //!   in-memory : one simulated process builds the samples with ska's public API (integer width
-//!               chosen from k, as the crate documentation shows) and applies the operation to
-//!               the in-memory array - no file in between (`@inmem`, see simprog.rs);
-//!   restart   : `ska build` -> exit -> a new simulated process `ska X file.skf` which has to
-//!               decide the width from the bytes on disk ("try 64-bit, then 128-bit").
+//!               chosen from k, as the crate documentation shows), saves that array, and applies
+//!               the operation to the array still in memory (`@inmem`, see simprog.rs);
+//!   restart   : exit -> a new simulated process `ska X file.skf` on the file just saved, which
+//!               has to decide the width from the bytes on disk ("try 64-bit, then 128-bit").
+//! (The file is the one saved from exactly that in-memory array - same row order - as C09 words
+//! it; independence from row order is C10's business. A file written by the `ska build` CLI is
+//! checked for header, recorded width and loader acceptance.)
 //! Results must agree for every valid k, including k >= 35 files whose k-mers all fit in 64 bits.
 
 use std::collections::BTreeMap;
@@ -101,8 +104,10 @@ impl<'a> Ex<'a> {
         }
         self.run(a)
     }
+    /// in-memory side: build, save exactly that array as `f.skf` (overwriting the previous one),
+    /// apply the operation in memory. The restart side then reads `f.skf` in a new process.
     fn inmem(&mut self, list: &str, op: Vec<String>) -> Result<ProcOut, HarnessError> {
-        let mut a = vec!["@inmem".to_string(), self.c.k.to_string(), b(!self.c.single_strand), list.into()];
+        let mut a = vec!["@inmem".to_string(), self.c.k.to_string(), b(!self.c.single_strand), list.into(), "save=f.skf".into()];
         a.extend(op);
         self.run(a)
     }
